@@ -4,5 +4,5 @@ From Coq Require Import Extraction ExtrOcamlBasic.
 From RJ Require Import Base.Outcome Model.Import.
 Extraction Language OCaml.
 
-Extraction "../ocaml/gen/import_model.ml" wire_anchor Import.run_concrete Import.parent Import.join
+Extraction "../ocaml/gen/import_model.ml" wire_anchor Import.run_concrete Import.run_concrete_virtual Import.parent Import.join
   Import.lossy Import.utf8_enc Import.cnode Import.ccanon Import.Build_prog.
